@@ -587,19 +587,20 @@ def carrier_transform(data_carrier, time_carrier, span_kind):
     return tr, applied
 
 
-def c15_failures(name, ad, c, rng, full=False, data_only=False, time_only=False):
+def c15_failures(name, ad, c, rng, full=False, data_only=False, time_only=False, exclude=()):
     """flags under every carrier == flags under the base carrier (float64 ndarray / datetime64[ns])"""
     base, _ = ad.impl(c)
     fails, n_eval = [], 0
     combos = [(dc, None, None) for dc in DATA_CARRIERS] + [(None, tc, None) for tc in TIME_CARRIERS] + \
              [(None, None, "list"), (None, None, "tuple")]
     combos.append((rng.choice(DATA_CARRIERS), rng.choice(TIME_CARRIERS), rng.choice(["list", "tuple"])))
+    combos = [cb for cb in combos if cb[0] not in exclude]
     if data_only:
         combos = [(dc, None, None) for dc in DATA_CARRIERS]
     if time_only:
         combos = [(None, tc, None) for tc in TIME_CARRIERS]
     if not full:
-        combos = rng.sample(combos, 8)
+        combos = rng.sample(combos, min(8, len(combos)))
     for dc, tc, sk in combos:
         tr, applied = carrier_transform(dc, tc, sk)
         core.KW_TRANSFORM = tr
@@ -764,6 +765,21 @@ def layout_block(ad, cases, tier, rng):
     if ad.name not in ND_TESTS:
         return None
     return nd_layout_block(ad.name, ad, [c for c in cases if ad.in_domain(c)], tier, rng)
+
+
+def carrier_block(ad, cases, tier, rng):
+    """simple_run block: the per-test property on OTHER carriers of the same series (lists with None / NaN, tuples,
+    integer and float32 arrays, masked arrays, Series, dask; times as datetime64 units, datetimes, Timestamps,
+    indexes, epoch seconds; spans as list / tuple): the flags are those of the float64 / datetime64[ns] call, which
+    the run compares with the model.  (A masked array HIDING finite values is left to C15: known finding F13a.)"""
+    dom = [c for c in cases if ad.in_domain(c) and (input_length(ad.name, c) or 0) >= 1]
+    fails, n_eval = [], 0
+    for c in sample(dom, 40 if tier == "quick" else 400, rng):
+        n, f = c15_failures(ad.name, ad, c, rng, exclude=("masked_hidden",))
+        n_eval += n
+        fails += f
+    return {"evaluations": n_eval, "distinct_nontrivial": n_eval, "failures": fails, "errors": [], "samples": [],
+            "distribution": {f"calls_on_other_carriers_{ad.name}": n_eval}}
 
 
 def reuse_block(ad, cases, tier, rng):
